@@ -74,7 +74,7 @@ def u_hkdf_expand(ctx):
                     ("okm", bt(env["okm"]) == Tc(i)),
                     ("previous", bt(env["previous"]) == T(i)),
                     ("len", z3.Length(bt(env["okm"])) == 32 * i)]
-        loop = Z3Loop(f"{q}/loop0", ["okm", "previous", "text"], inv,
+        loop = Z3Loop(f"{q}/loop0", ["okm", "previous", "text"], inv, for_lo=0,
                       lemmas=lambda env, gh: inst(zt(env["i"])),
                       measure=lambda env: zt(env["n"]) - zt(env["i"]))
         # `text` is assigned in the body only: give it a value at entry so it can be havocked
@@ -172,7 +172,7 @@ def u_expand_message_xmd(ctx):
                     ("cat", b.joined.t == cat(i - 1)),
                     ("last", z3.Select(b.arr, i - 2) == blk(i - 1)),
                     ("len", z3.Length(b.joined.t) == zt(bsz) * (i - 1))]
-        loop = Z3Loop(f"{q}/loop0", ["b"], inv, lemmas=lambda env, gh: inst(zt(env["i"])),
+        loop = Z3Loop(f"{q}/loop0", ["b"], inv, for_lo=2, lemmas=lambda env, gh: inst(zt(env["i"])),
                       measure=lambda env: zt(env["ell"]) + 1 - zt(env["i"]))
         it = mk_interp(ctx, q, loops={(q, 0): loop})
         kind, res = call_top(it, fv, [msg, DST, L, Hf])
